@@ -392,6 +392,11 @@ func checkRead(fail func(key, format string, args ...any), f *fileFixture, m *rs
 		fail("C04|read-bytes", "Read(%d) at position %d returned %x, content there is %x", k, m.pos, buf[:n], avail[:min(len(avail), n+2)])
 		return false
 	}
+	// the buffer is the caller's: it is overwritten after every read, so a reader that handed out
+	// its own storage (instead of copying) corrupts what it serves next
+	for i := range buf[:n] {
+		buf[i] ^= 0xA5
+	}
 	for _, b := range buf[n:] {
 		if b != 0xEE {
 			// writing scratch data beyond n is allowed by io.Reader; not judged
@@ -433,6 +438,10 @@ func TestC04(t *testing.T) {
 		for i := 0; i < per; i++ {
 			nr := 1 + i%3
 			steps := 1 + (i*7)%40
+			if i == per-1 {
+				// one long-lived set of readers per shape: state that builds up over thousands of steps
+				steps = r.Pick(1500, 20000)
+			}
 			r.Case(fmt.Sprintf("%s/h%d", f.Name, i), map[string]any{"fixture": f.Name, "len": len(f.Content), "readers": nr, "steps": steps, "root": f.Root.String()}, func(c *mon.Case) {
 				runHistory(c, f, nr, steps)
 			})
